@@ -50,43 +50,72 @@ def _is_sys(node, attr: str) -> bool:
 
 
 class _Compiler:
-    """CPS compiler of one case body to a Prog term (nested tuples)."""
+    """CPS compiler of one case body to a Prog term (nested tuples).
+
+    `h` is the handler context of the code being compiled: None outside `try:`, else a function
+    `h(n, env) -> prog` that compiles the `except Exception:` body followed by whatever follows the
+    try statement, for a raise at a point where `n` variables are bound (`env`: the names known when
+    the try was entered). Inside a try every bind / condition carries its handler (`tryBind`,
+    `tryIte`). Boolean locals (`passed = <condition>`, `passed = False`) are resolved per path: the
+    environment maps them to a constant, and `x if passed else y` / `if passed:` pick a branch."""
 
     def __init__(self, roles: dict[str, str], parser_name: str):
         self.roles = roles
         self.parser_name = parser_name
 
+    @staticmethod
+    def _bind(rhs, n, env, k, h):
+        if h is None:
+            return ("bind", rhs, k(("var", n), n + 1, env))
+        return ("tryBind", rhs, k(("var", n), n + 1, env), h(n, env))
+
+    @staticmethod
+    def _ite(c, n, env, kt, kf, h):
+        if h is None:
+            return ("ite", c, kt(n, env), kf(n, env))
+        return ("tryIte", c, kt(n, env), kf(n, env), h(n, env))
+
+    @staticmethod
+    def _is_boolean(e) -> bool:
+        return (isinstance(e, (ast.BoolOp, ast.Compare))
+                or (isinstance(e, ast.UnaryOp) and isinstance(e.op, ast.Not))
+                or (isinstance(e, ast.Constant) and isinstance(e.value, bool))
+                or (isinstance(e, ast.Attribute) and e.attr == "contains_error")
+                or (isinstance(e, ast.Call) and isinstance(e.func, ast.Attribute) and e.func.attr == "endswith"))
+
     # expressions: k(arg, n, env) -> prog ; arg = ("var", i) | ("lit", s)
-    def expr(self, e, n, env, k):
+    def expr(self, e, n, env, k, h=None):
         if isinstance(e, ast.Name):
             if e.id not in env:
                 raise ExtractError(f"unknown local {e.id!r}")
+            if env[e.id][0] == "bool":
+                raise ExtractError(f"boolean local {e.id!r} used as a value")
             return k(env[e.id], n, env)
         s = const_str(e)
         if s is not None:
             return k(("lit", s), n, env)
         if isinstance(e, ast.BinOp) and isinstance(e.op, ast.Add):
             return self.expr(e.left, n, env, lambda a, n1, env1: self.expr(
-                e.right, n1, env1, lambda b, n2, env2: ("bind", ("concat", a, b), k(("var", n2), n2 + 1, env2))))
+                e.right, n1, env1, lambda b, n2, env2: self._bind(("concat", a, b), n2, env2, k, h), h), h)
         if isinstance(e, ast.IfExp):
             return self.cond(e.test, n, env,
-                             lambda n1, env1: self.expr(e.body, n1, env1, k),
-                             lambda n1, env1: self.expr(e.orelse, n1, env1, k))
+                             lambda n1, env1: self.expr(e.body, n1, env1, k, h),
+                             lambda n1, env1: self.expr(e.orelse, n1, env1, k, h), h)
         if isinstance(e, ast.Call):
             f = e.func
             # args.file.read()
             if (isinstance(f, ast.Attribute) and f.attr == "read" and _is_args_attr(f.value, "file")
                     and not e.args and not e.keywords):
-                return ("bind", ("read",), k(("var", n), n + 1, env))
+                return self._bind(("read",), n, env, k, h)
             # x.rebuild()
             if isinstance(f, ast.Attribute) and f.attr == "rebuild" and not e.args and not e.keywords:
                 return self.expr(f.value, n, env,
-                                 lambda a, n1, env1: ("bind", ("rebuild", a), k(("var", n1), n1 + 1, env1)))
+                                 lambda a, n1, env1: self._bind(("rebuild", a), n1, env1, k, h), h)
             if isinstance(f, ast.Name) and self.roles.get(f.id) == "parse":
                 if len(e.args) != 1 or e.keywords:
                     raise ExtractError("parse(...) with unexpected arguments")
                 return self.expr(e.args[0], n, env,
-                                 lambda a, n1, env1: ("bind", ("parse", a), k(("var", n1), n1 + 1, env1)))
+                                 lambda a, n1, env1: self._bind(("parse", a), n1, env1, k, h), h)
             if isinstance(f, ast.Name) and self.roles.get(f.id) in ("set_value", "remove_value"):
                 role = self.roles[f.id]
                 names = ["source", "npath", "value"] if role == "set_value" else ["source", "npath"]
@@ -108,17 +137,30 @@ class _Compiler:
                         raise ExtractError(f"{role}: {nm}= is not args.npath/args.value")
                     cli_args.append(a)
                 tag = "setValue" if role == "set_value" else "removeValue"
-                return self.expr(got["source"], n, env, lambda a, n1, env1: (
-                    "bind", (tag, a, *cli_args), k(("var", n1), n1 + 1, env1)))
+                return self.expr(got["source"], n, env, lambda a, n1, env1: self._bind(
+                    (tag, a, *cli_args), n1, env1, k, h), h)
         raise ExtractError(f"unsupported expression: {ast.unparse(e)[:60]}")
 
     # conditions: kt(n, env), kf(n, env)
-    def cond(self, c, n, env, kt, kf):
+    def cond(self, c, n, env, kt, kf, h=None):
+        if isinstance(c, ast.Constant) and isinstance(c.value, bool):
+            return (kt if c.value else kf)(n, env)
+        if isinstance(c, ast.Name):
+            v = env.get(c.id)
+            if v is None or v[0] != "bool":
+                raise ExtractError(f"condition on non-boolean local {c.id!r}")
+            return (kt if v[1] else kf)(n, env)
         if isinstance(c, ast.UnaryOp) and isinstance(c.op, ast.Not):
-            return self.cond(c.operand, n, env, kf, kt)
+            return self.cond(c.operand, n, env, kf, kt, h)
+        if isinstance(c, ast.BoolOp):
+            first, rest = c.values[0], c.values[1:]
+            tail = rest[0] if len(rest) == 1 else ast.BoolOp(op=c.op, values=rest)
+            if isinstance(c.op, ast.And):   # short circuit: the tail is evaluated only when `first` holds
+                return self.cond(first, n, env, lambda n1, env1: self.cond(tail, n1, env1, kt, kf, h), kf, h)
+            return self.cond(first, n, env, kt, lambda n1, env1: self.cond(tail, n1, env1, kt, kf, h), h)
         if isinstance(c, ast.Attribute) and c.attr == "contains_error":
-            return self.expr(c.value, n, env, lambda a, n1, env1: (
-                "ite", ("containsError", a), kt(n1, env1), kf(n1, env1)))
+            return self.expr(c.value, n, env, lambda a, n1, env1: self._ite(
+                ("containsError", a), n1, env1, kt, kf, h), h)
         if isinstance(c, ast.Compare) and len(c.ops) == 1:
             op = c.ops[0]
             l, r = c.left, c.comparators[0]
@@ -126,34 +168,40 @@ class _Compiler:
                 pair = (l, r)
                 if any(_is_args_attr(x, "file") for x in pair) and any(_is_sys(x, "stdin") for x in pair):
                     a, b = (kt, kf) if isinstance(op, ast.Is) else (kf, kt)
-                    return ("ite", ("isStdin",), a(n, env), b(n, env))
+                    return self._ite(("isStdin",), n, env, a, b, h)
             if isinstance(op, (ast.Eq, ast.NotEq)):
                 a_, b_ = (kt, kf) if isinstance(op, ast.Eq) else (kf, kt)
                 return self.expr(l, n, env, lambda a, n1, env1: self.expr(
-                    r, n1, env1, lambda b, n2, env2: ("ite", ("eq", a, b), a_(n2, env2), b_(n2, env2))))
+                    r, n1, env1, lambda b, n2, env2: self._ite(("eq", a, b), n2, env2, a_, b_, h), h), h)
         if (isinstance(c, ast.Call) and isinstance(c.func, ast.Attribute) and c.func.attr == "endswith"
                 and len(c.args) == 1 and const_str(c.args[0]) is not None and not c.keywords):
             suf = const_str(c.args[0])
-            return self.expr(c.func.value, n, env, lambda a, n1, env1: (
-                "ite", ("endsWith", a, suf), kt(n1, env1), kf(n1, env1)))
+            return self.expr(c.func.value, n, env, lambda a, n1, env1: self._ite(
+                ("endsWith", a, suf), n1, env1, kt, kf, h), h)
         raise ExtractError(f"unsupported condition: {ast.unparse(c)[:60]}")
 
-    # statements: the continuation is the rest of the enclosing blocks (a list of statement lists)
-    def block(self, stmts, n, env, rest):
+    def ret(self, v, n, env, h):
+        if v is None:
+            return ("done",)
+        if isinstance(v, ast.Constant) and isinstance(v.value, int) and not isinstance(v.value, bool) \
+                and 0 <= v.value <= 255:
+            return ("ret", v.value)
+        if isinstance(v, ast.IfExp):
+            return self.cond(v.test, n, env, lambda n1, env1: self.ret(v.body, n1, env1, h),
+                             lambda n1, env1: self.ret(v.orelse, n1, env1, h), h)
+        raise ExtractError(f"unsupported return value: {ast.unparse(v)[:40]}")
+
+    # statements: the continuation is the rest of the enclosing blocks: a list of frames
+    # (statement list, handler context in force for that frame)
+    def block(self, stmts, n, env, rest, h=None):
         if not stmts:
             if not rest:
                 return ("done",)
-            return self.block(rest[0], n, env, rest[1:])
+            return self.block(rest[0][0], n, env, rest[1:], rest[0][1])
         st, tail = stmts[0], stmts[1:]
-        nxt = lambda n1, env1: self.block(tail, n1, env1, rest)
+        nxt = lambda n1, env1: self.block(tail, n1, env1, rest, h)
         if isinstance(st, ast.Return):
-            v = st.value
-            if v is None:
-                return ("done",)
-            if isinstance(v, ast.Constant) and isinstance(v.value, int) and not isinstance(v.value, bool) \
-                    and 0 <= v.value <= 255:
-                return ("ret", v.value)
-            raise ExtractError(f"unsupported return value: {ast.unparse(v)[:40]}")
+            return self.ret(st.value, n, env, h)
         if isinstance(st, ast.Pass):
             return nxt(n, env)
         if isinstance(st, ast.AnnAssign) and st.value is None:
@@ -163,14 +211,35 @@ class _Compiler:
             if len(targets) != 1 or not isinstance(targets[0], ast.Name):
                 raise ExtractError("unsupported assignment target")
             name = targets[0].id
-            return self.expr(st.value, n, env, lambda a, n1, env1: nxt(n1, {**env1, name: a}))
+            if self._is_boolean(st.value):
+                return self.cond(st.value, n, env,
+                                 lambda n1, env1: nxt(n1, {**env1, name: ("bool", True)}),
+                                 lambda n1, env1: nxt(n1, {**env1, name: ("bool", False)}), h)
+            return self.expr(st.value, n, env, lambda a, n1, env1: nxt(n1, {**env1, name: a}), h)
         if isinstance(st, ast.If):
             return self.cond(st.test, n, env,
-                             lambda n1, env1: self.block(st.body, n1, env1, [tail, *rest]),
-                             lambda n1, env1: self.block(st.orelse, n1, env1, [tail, *rest]))
+                             lambda n1, env1: self.block(st.body, n1, env1, [(tail, h), *rest], h),
+                             lambda n1, env1: self.block(st.orelse, n1, env1, [(tail, h), *rest], h), h)
+        if isinstance(st, ast.Try):
+            if h is not None:
+                raise ExtractError("nested try")
+            if st.orelse or st.finalbody or len(st.handlers) != 1:
+                raise ExtractError("try with else/finally or several handlers")
+            hd = st.handlers[0]
+            catches_all = hd.type is None or (isinstance(hd.type, ast.Name) and hd.type.id in ("Exception", "BaseException"))
+            if not catches_all or hd.name is not None:
+                raise ExtractError(f"unsupported except clause: {ast.unparse(hd)[:40]}")
+            entry_env = dict(env)
+            after = [(tail, h), *rest]
+            # a raise anywhere in the body: run the handler body (with the names known at try entry),
+            # then whatever follows the try statement, outside the protection
+            handler = lambda n1, _env1: self.block(hd.body, n1, entry_env, after, None)
+            return self.block(st.body, n, env, after, handler)
         if isinstance(st, ast.Expr) and isinstance(st.value, ast.Call):
             call = st.value
             f = call.func
+            if h is not None:
+                raise ExtractError("output inside try is not modelled")
             if isinstance(f, ast.Name) and f.id == "print":
                 end = None
                 for kw in call.keywords:
@@ -253,7 +322,7 @@ def extract_case(cmd: str | None):
     if cmd not in cases:
         raise ExtractError(f"no case for {cmd!r}")
     # a string case placed after the wildcard would be unreachable; Python rejects that at compile time
-    return _Compiler(roles, parser_name).block(cases[cmd], 0, {}, [after])
+    return _Compiler(roles, parser_name).block(cases[cmd], 0, {}, [(after, None)])
 
 
 def extract_entry() -> bool:
@@ -293,7 +362,7 @@ def extract_entry() -> bool:
 
 
 # ------------------------------------------------------------------ parser.py
-def _file_option(fn: ast.FunctionDef) -> dict:
+def _file_option(fn: ast.FunctionDef, helpers: dict | None = None) -> dict:
     """the single add_argument call of with_file_argument"""
     calls = [n for n in ast.walk(fn) if isinstance(n, ast.Call) and isinstance(n.func, ast.Attribute)
              and n.func.attr == "add_argument"]
@@ -317,9 +386,15 @@ def _file_option(fn: ast.FunctionDef) -> dict:
         raise ExtractError(f"{fn.name}: option destination is {dest!r}, main() reads args.file")
     default_stdin = "default" in kw and _is_sys(kw["default"], "stdin")
     t = kw.get("type")
+    if isinstance(t, ast.Name):
+        # a module-level opener function: `open(path, "r", encoding="utf-8", newline=...)`
+        if helpers is None or t.id not in helpers:
+            raise ExtractError(f"{fn.name}: type={t.id} is not a function of cli/parser.py")
+        opener = _opener(helpers[t.id])
+        return {"flags": flags, "default_stdin": default_stdin, **opener}
     if not (isinstance(t, ast.Call) and isinstance(t.func, ast.Attribute) and t.func.attr == "FileType"
             and isinstance(t.func.value, ast.Name) and t.func.value.id == "argparse"):
-        raise ExtractError(f"{fn.name}: type= is not argparse.FileType(...)")
+        raise ExtractError(f"{fn.name}: type= is neither argparse.FileType(...) nor an opener function")
     mode = const_str(t.args[0]) if t.args else "r"
     tkw = {k.arg: k.value for k in t.keywords}
     if "mode" in tkw:
@@ -335,6 +410,41 @@ def _file_option(fn: ast.FunctionDef) -> dict:
     # universal-newlines translation on reading, always
     return {"flags": flags, "mode": mode, "encoding": enc.lower(), "default_stdin": default_stdin,
             "universal_newlines": True}
+
+
+def _opener(fn: ast.FunctionDef) -> dict:
+    """An opener used as `type=`: exactly one `open(<param>, mode, encoding=<const>, newline=<const>)` call whose
+    result is returned. `newline=None` (or absent) means universal-newlines translation while reading; `""`,
+    `"\n"`, `"\r"`, `"\r\n"` mean none."""
+    if len(fn.args.args) != 1:
+        raise ExtractError(f"{fn.name}: opener must take the path only")
+    param = fn.args.args[0].arg
+    opens = [n for n in ast.walk(fn) if isinstance(n, ast.Call) and isinstance(n.func, ast.Name) and n.func.id == "open"]
+    if len(opens) != 1:
+        raise ExtractError(f"{fn.name}: expected one open() call, found {len(opens)}")
+    c = opens[0]
+    returned = any(isinstance(n, ast.Return) and n.value is c for n in ast.walk(fn))
+    if not returned:
+        raise ExtractError(f"{fn.name}: the open() result is not returned as it is")
+    if not c.args or not (isinstance(c.args[0], ast.Name) and c.args[0].id == param) or len(c.args) > 2:
+        raise ExtractError(f"{fn.name}: open() is not called on the path parameter")
+    ckw = {k.arg: k.value for k in c.keywords}
+    if set(ckw) - {"mode", "encoding", "newline"}:
+        raise ExtractError(f"{fn.name}: open() has unmodelled arguments {sorted(set(ckw) - {'mode', 'encoding', 'newline'})}")
+    mode = const_str(c.args[1]) if len(c.args) == 2 else (const_str(ckw["mode"]) if "mode" in ckw else "r")
+    enc = const_str(ckw["encoding"]) if "encoding" in ckw else None
+    if mode is None or enc is None:
+        raise ExtractError(f"{fn.name}: open() has no constant mode/encoding")
+    universal = True
+    if "newline" in ckw:
+        nl = ckw["newline"]
+        if isinstance(nl, ast.Constant) and nl.value is None:
+            universal = True
+        elif const_str(nl) in ("", "\n", "\r", "\r\n"):
+            universal = False
+        else:
+            raise ExtractError(f"{fn.name}: open(newline=...) is not a constant")
+    return {"mode": mode, "encoding": enc.lower(), "universal_newlines": universal}
 
 
 def _parser_parts():
@@ -395,7 +505,7 @@ def extract_fileopt():
     names = set(file_opt.values())
     if len(names) != 1:
         raise ExtractError(f"sub-commands use different file-option helpers: {sorted(names)}")
-    return _file_option(helpers[names.pop()])
+    return _file_option(helpers[names.pop()], helpers)
 
 
 # ------------------------------------------------------------------ Lean emission
@@ -447,6 +557,11 @@ def prog_to_lean(p, depth=0) -> str:
         return f"(.helpStderr {prog_to_lean(p[1], depth + 1)})"
     if t == "ite":
         return f"(.ite {_cond(p[1])} {prog_to_lean(p[2], depth + 1)} {prog_to_lean(p[3], depth + 1)})"
+    if t == "tryBind":
+        return f"(.tryBind {_rhs(p[1])} {prog_to_lean(p[2], depth + 1)} {prog_to_lean(p[3], depth + 1)})"
+    if t == "tryIte":
+        return (f"(.tryIte {_cond(p[1])} {prog_to_lean(p[2], depth + 1)} {prog_to_lean(p[3], depth + 1)} "
+                f"{prog_to_lean(p[4], depth + 1)})")
     raise ExtractError(f"emit: prog {t}")
 
 
